@@ -20,24 +20,24 @@ const modPath = "github.com/tormoder/fit"
 var verifiedPkgDirs = []string{".", "./dyncrc16", "./internal/types"}
 
 type Clause struct {
-	Raw   *RawClause
-	Expr  ast.Expr   // typed expression (overlay AST)
-	Locs  []ast.Expr // for assigns
-	Whole []bool     // for assigns: loc[..] (whole array)
-	GTarget, GValue, GCond ast.Expr // for gassign
+	Raw                    *RawClause
+	Expr                   ast.Expr   // typed expression (overlay AST)
+	Locs                   []ast.Expr // for assigns
+	Whole                  []bool     // for assigns: loc[..] (whole array)
+	GTarget, GValue, GCond ast.Expr   // for gassign
 }
 
 type Contract struct {
-	Raw    *RawContract
-	Pkg    *packages.Package
-	Fn     *ssa.Function
-	Decl   *ast.FuncDecl // generated clause function
-	Params []*types.Var  // overlay params in order: recv+params, results, locals
-	NIn    int           // number of receiver+params
-	NRes   int
-	Clauses []*Clause
-	IfaceSig  *types.Signature
-	IfaceName string
+	Raw        *RawContract
+	Pkg        *packages.Package
+	Fn         *ssa.Function
+	Decl       *ast.FuncDecl // generated clause function
+	Params     []*types.Var  // overlay params in order: recv+params, results, locals
+	NIn        int           // number of receiver+params
+	NRes       int
+	Clauses    []*Clause
+	IfaceSig   *types.Signature
+	IfaceName  string
 	SplitExprs []ast.Expr
 }
 
@@ -56,39 +56,39 @@ type SpecFn struct {
 }
 
 type Lemma struct {
-	Raw  *RawLemma
-	Pkg  *packages.Package
-	Decl *ast.FuncDecl
-	Hyps []ast.Expr
-	Concl ast.Expr
+	Raw    *RawLemma
+	Pkg    *packages.Package
+	Decl   *ast.FuncDecl
+	Hyps   []ast.Expr
+	Concl  ast.Expr
 	Params []*types.Var
 }
 
 type World struct {
-	Repo      string
-	Fset      *token.FileSet
-	Pkgs      []*packages.Package
-	PkgByPath map[string]*packages.Package
-	Prog      *ssa.Program
-	SSAPkgs   map[string]*ssa.Package
-	Contracts map[string]*Contract // by ssa function String()
-	ContractList []*Contract
-	Specs     map[*types.Func]*SpecFn
-	SpecByName map[string]*SpecFn // pkgpath.name
-	layer     string // active contract layer for VCs created from now on
-	Ghosts    map[*types.Func]string
-	Lemmas    []*Lemma
-	Overlays  map[string]string // path -> content
-	CFiles    []*ContractFile
-	AllFuncs  map[*ssa.Function]bool
-	IfaceContracts map[string]*Contract // "(pkg.Iface).Method" -> contract
-	GhostConst map[string]bool
-	tags      *TypeTags
-	tabs      worldTables
-	gt        globalTables
+	Repo            string
+	Fset            *token.FileSet
+	Pkgs            []*packages.Package
+	PkgByPath       map[string]*packages.Package
+	Prog            *ssa.Program
+	SSAPkgs         map[string]*ssa.Package
+	Contracts       map[string]*Contract // by ssa function String()
+	ContractList    []*Contract
+	Specs           map[*types.Func]*SpecFn
+	SpecByName      map[string]*SpecFn // pkgpath.name
+	layer           string             // active contract layer for VCs created from now on
+	Ghosts          map[*types.Func]string
+	Lemmas          []*Lemma
+	Overlays        map[string]string // path -> content
+	CFiles          []*ContractFile
+	AllFuncs        map[*ssa.Function]bool
+	IfaceContracts  map[string]*Contract // "(pkg.Iface).Method" -> contract
+	GhostConst      map[string]bool
+	tags            *TypeTags
+	tabs            worldTables
+	gt              globalTables
 	closureBindings map[*ssa.MakeClosure][]ssa.Value
-	prof      *Profile
-	initNotes map[string]bool
+	prof            *Profile
+	initNotes       map[string]bool
 }
 
 func goEnv() []string {
@@ -351,7 +351,6 @@ func (w *World) bindContracts() error {
 	}
 	return nil
 }
-
 
 func (w *World) collectClauses(c *Contract, pkg *packages.Package, fd *ast.FuncDecl, rc *RawContract) error {
 	// collect clauses
